@@ -75,10 +75,6 @@ def _():
     gset(request.deferred.d_owner, request)
 
 
-@ghost_at('mqtt.client.pubsubs.MQTTProtocol.doPublish', after='self.factory.queuePublishTx[self.addr].append(request)')
-def _():
-    gset(request.q_pos, dq_tail(Q(self)) - 1)
-
 
 # I.enc: the packet a request stands for is fixed when it is encoded
 @ghost_at('mqtt.client.pubsubs.MQTTProtocol.doPublish', after='request.encode()')
